@@ -206,16 +206,29 @@ def run(ctx):
                 ctx.count('member_itself_cannot_serialise')
             return
         # a member "accepts" the typed value when its own fast pass takes it, or when convert(x, A_k) gives x back
-        candidates = []
+        strict, loose = [], []
         for k, A in enumerate(members_py):
             conv_k = env.make_converter(A)
             with monitors.guard():
                 fast_ok = observe(conv_k.try_convert, x).kind == 'value'
             c = observe(env.convert, x, A)
-            if fast_ok or (c.kind == 'value' and deep_typed_eq(c.val, x)[0]):
+            gives_back = c.kind == 'value' and deep_typed_eq(c.val, x)[0] and deep_typed_eq(x, c.val)[0]
+            if fast_ok or gives_back:
                 dk = observe(env.into_data, x, A)
                 if dk.kind == 'value':
-                    candidates.append((k, dk.val))
+                    (strict if gives_back else loose).append((k, dk.val))
+        candidates = strict + loose
+        # an instance of a pane dataclass that IS one of the members belongs to that member: it is written the way that class writes it
+        # (another dataclass member whose fast pass lets foreign instances through must not claim it)
+        owner = next((A for A in members_py if isinstance(A, type) and hasattr(A, '__pane_info__') and type(x) is A), None)
+        if owner is not None:
+            own = observe(env.into_data, x, owner)
+            ctx.count('serialise_owned_instances')
+            if own.kind == 'value' and not same_data(d.val, own.val):
+                ctx.violation('serialise-uses-accepting-member', sub, i,
+                              {**wit, 'typed': short(x, 200), 'into_data(x, U)': short(d.val, 200), 'its_own_class_writes': short(own.val, 200)},
+                              mech='dataclass-instance-serialised-by-another-member')
+                return
         ctx.count('serialise_with_candidates' if candidates else 'serialise_no_candidate')
         if candidates and not any(same_data(d.val, dk) for _, dk in candidates):
             ctx.violation('serialise-uses-accepting-member', sub, i,
@@ -378,6 +391,57 @@ def run(ctx):
                     return
 
     drive.for_each_case(ctx, 'twins', ctx.budget // 3, body_twins, gen=gen_union)
+
+    # a condition on the WHOLE union: the left-most accepting member decides the value, and only then the condition decides the verdict
+    # (it is not pushed into the members, where a later member could pass it)
+    from .. import conds as C
+
+    def body_conditioned(i, rng, uty, U):
+        members_py = list(t.get_args(U))
+        if len(members_py) != len(uty.a):
+            ctx.count('spelling_collapsed')
+            return
+        spec = C.with_names(rng.choice(({'op': 'len_range', 'min': 2}, {'op': 'len_range', 'max': 1}, {'op': 'positive'}, {'op': 'nonempty'}, {'op': 'user', 'fn': 'truthy'},
+                                        {'op': 'val_range', 'min': 0, 'max': 5}, {'op': 'user', 'fn': 'never'})))
+        CU = t.Annotated[U, C.build_cond(spec)]
+        if tuple(t.get_args(t.get_args(CU)[0])) != tuple(members_py) or any(a is not b for a, b in zip(t.get_args(t.get_args(CU)[0]), members_py)):
+            ctx.count('spelling_collapsed')       # typing's cache answered with an equal Annotated alias whose union has another member order
+            return
+        pred = C.pred(spec)
+        wraps = rng.choice(('top', 'optional', 'list'))
+        TT = {'top': CU, 'optional': t.Union[CU, None], 'list': list[CU]}[wraps]
+        inner = TT if wraps == 'top' else t.get_args(TT)[0]
+        if inner is not CU:
+            ctx.count('spelling_collapsed')
+            return
+        vals = [genval.member(m, rng) for m in uty.a] + [rng.choice(POOL_VALUES) for _ in range(3)] + [[7, 7], [1], 'ab', 0, -1, 3]
+        for v in vals:
+            if wraps == 'optional' and v is None:
+                continue
+            out = observe(env.from_data, [v] if wraps == 'list' else v, TT)
+            j, mo = first_success(members_py, v)
+            if j == 'escape' or out.kind == 'escape':
+                ctx.count('escapes_skipped')
+                continue
+            holds = None
+            if j is not None:
+                p_ = observe(lambda: bool(pred(mo.val)))       # (an array-valued comparison has no truth value: a raising predicate)
+                holds = p_.kind == 'value' and p_.val
+            expect_ok = j is not None and holds
+            ctx.count('conditioned_union_checked')
+            ctx.case(('conditioned-union', spec['op'], wraps, expect_ok, out.kind), nontrivial=True)
+            wit = {'type': short(TT, 300), 'value': short(v, 200), 'outcome': out.brief(), 'first_accepting_member': j,
+                   'its_value': mo.brief() if mo else None, 'condition_holds_on_it': holds}
+            if (out.kind == 'value') != bool(expect_ok):
+                ctx.violation('leftmost-member-wins', 'conditioned', i, wit, mech='condition-on-union:' + ('later-member-or-unconditioned-value-accepted' if out.kind == 'value' else 'refused'))
+                return
+            if expect_ok:
+                got = out.val[0] if wraps == 'list' else out.val
+                if not (deep_typed_eq(mo.val, got)[0] and deep_typed_eq(got, mo.val)[0]):
+                    ctx.violation('leftmost-member-wins', 'conditioned', i, wit, mech='condition-on-union:not-leftmost')
+                    return
+
+    drive.for_each_case(ctx, 'conditioned', ctx.budget // 4, body_conditioned, gen=gen_union)
 
     if ctx.tier == 'thorough':
         # all permutations of <=4 members per family
